@@ -11,6 +11,7 @@ Proofs are in Lemmas/Missing.lean (`missing_*`); the statements are repeated her
 import JubakoModel.Model.Container
 import JubakoModel.Lemmas.Missing
 import JubakoModel.Lemmas.FuncsLookup
+import JubakoModel.Lemmas.FuncsManifest
 
 namespace Jubako
 
@@ -220,5 +221,23 @@ theorem c11_get_pack_is_source_get_pack (fs : FS) (c : ContainerView) (packId : 
             (fun o => o.map (bytesOfLocated fs)))
           (fun b => Outcome.ok b) packId).map' lookupOfSrc) :=
   gen_containerGetPack fs c packId
+
+/-- **The manifest is opened as the source opens it**: `manifestOpen` of the model agrees with `ManifestPack::new`
+    as translated from `reader/manifest_pack.rs` on every run (pack infos at the offsets of the translated
+    iterator, directory pack info apart, others in order, value store, the `unwrap()` of the directory info). -/
+theorem c11_manifest_open_is_source_open (f : Bytes)
+    (hU : ∀ hd h mb m, readBlock f 0 60 = .ok hd → PackHeader.decode hd = .ok h → readBlock f 64 60 = .ok mb →
+      ManifestHeader.decode mb = .ok m → m.packCount * packInfoBlockSize ≤ h.checkInfoPos) :
+    ((Generated.manifestPackNew
+        ((readBlock f 0 60).bind fun hd => PackHeader.decode hd)
+        ((readBlock f 64 60).bind fun mb => ManifestHeader.decode mb)
+        (fun h m => (List.range m.packCount).map (fun k => packInfosOffset h.checkInfoPos m.packCount + k * packInfoBlockSize))
+        (fun off => (readBlock f off 252).bind fun pb => PackInfo.decode pb)
+        (fun so => valueStoreOpen f so)).map' (fun r => (r.1, r.2.1, r.2.2.1, r.2.2.2.1))).Same
+      ((manifestOpen f).bind fun r =>
+        match (r.2.2.filter isDir).getLast? with
+        | some d => .ok (r.1, r.2.1, d, r.2.2.filter (fun i => !isDir i))
+        | none => .panic "") :=
+  gen_manifestOpen f hU
 
 end Jubako
